@@ -150,6 +150,20 @@ def run(ctx):
         return None
 
     reqs = [r for _, r, _ in cases]
+    # instructions at the largest sizes the format can express (implementation only, judged by the same oracle; see common.scale_modules)
+    from props import common
+    g0 = instgen.Gen(T, random.Random(ctx.seed))
+    scale = []
+    for label, insts, k in common.scale_modules(g0, ctx.tier):
+        inst = insts[k]
+        ra = "asm " + inst.text()
+        rp = "parse " + instgen.to_bytes(instgen.header() + inst.words()).hex()
+        expect[ra] = ("asm", ",".join(str(w) for w in inst.words()))
+        expect[rp] = ("parse", inst.text())
+        scale += [ra, rp]
+    found_scale = C.oracle_search(ctx, scale, oracle, "asm+parse-scale")
+    ctx.oblige(f"oracle:asm+parse at the largest instruction sizes ({len(scale)} requests, implementation only)", not found_scale)
+    ctx.coverage["scale_requests"] = len(scale)
     if broken:
         if C.oracle_search(ctx, reqs, oracle, "asm+parse"):
             # the concrete failing input replaces the bare "translator no longer accepts" reports
